@@ -19,8 +19,10 @@ import (
 	"github.com/innovationb1ue/RedisGO/server"
 	rt "github.com/innovationb1ue/RedisGO/verifrt"
 	"go.etcd.io/etcd/client/pkg/v3/fileutil"
+	"go.etcd.io/etcd/client/pkg/v3/types"
 	"go.etcd.io/etcd/raft/v3"
 	"go.etcd.io/etcd/raft/v3/raftpb"
+	"go.etcd.io/etcd/server/v3/etcdserver/api/rafthttp"
 	"go.etcd.io/etcd/server/v3/storage/wal"
 	"verif/h"
 	"verif/model"
@@ -95,6 +97,8 @@ type sim struct {
 	shadowViol []string
 	lastHS     map[int][2]uint64
 	removed    map[int]bool // nodes that left the cluster through a membership change
+	promised   map[int][3]uint64
+	inShadow   bool
 	peers      []string
 }
 
@@ -113,6 +117,7 @@ func newSim(nNodes int, clientSpecs []clientSpec) *sim {
 			panic(crashSentinel{s.syncCount - 1})
 		}
 	}
+	rafthttp.VerifSendHook = func(from types.ID, m raftpb.Message) { s.atSend(int(from)-1, m) }
 	peers := make([]string, nNodes)
 	for i := range peers {
 		peers[i] = fmt.Sprintf("http://127.0.0.1:%d", 20000+i)
@@ -534,6 +539,7 @@ func (s *sim) close() {
 		}
 	}
 	fileutil.VerifSyncHook = nil
+	rafthttp.VerifSendHook = nil
 	os.RemoveAll(s.root)
 	// connection handlers blocked on a reply that will never come keep their closure alive for
 	// ever (by design of the code under test): drop what they reference so that it can be collected
@@ -680,4 +686,86 @@ func (s *sim) addNode() int {
 	s.startNode(n, s.peers)
 	raftexample.VerifJoin = false
 	return id - 1
+}
+
+// atSend runs when the Ready handler of node i hands m to the transport.  A response is a promise:
+// an accepting MsgAppResp says "my log holds everything up to Index", a granted MsgVoteResp says
+// "my vote of this term is yours", any response says "I am at this term" - and a promise must be
+// recoverable from the node's files before it leaves the node (the leader's own MsgApp may, as
+// raft/doc.go allows, go out while its entries are still being written).  Checked by restarting a
+// copy of the directory through the real recovery path, once per new (term, vote, index) promise.
+func (s *sim) atSend(i int, m raftpb.Message) {
+	if !s.shadow || i < 0 || i >= len(s.nodes) || s.inShadow {
+		return
+	}
+	var needIndex uint64
+	needVote := false
+	switch m.Type {
+	case raftpb.MsgAppResp:
+		if m.Reject {
+			return
+		}
+		needIndex = m.Index
+	case raftpb.MsgVoteResp:
+		if m.Reject {
+			return
+		}
+		needVote = true
+	default:
+		return
+	}
+	key := [3]uint64{m.Term, 0, needIndex}
+	if needVote {
+		key[1] = m.To
+	}
+	if s.promised == nil {
+		s.promised = map[int][3]uint64{}
+	}
+	if p, ok := s.promised[i]; ok && p[0] == key[0] && p[1] >= key[1] && p[2] >= key[2] && !needVote {
+		return
+	}
+	s.promised[i] = key
+	n := s.nodes[i]
+	s.shadowRuns++
+	s.inShadow = true
+	defer func() { s.inShadow = false }()
+	sh := n.dir + ".shadow"
+	os.RemoveAll(sh)
+	defer os.RemoveAll(sh)
+	if err := copyTree(n.dir, sh); err != nil {
+		s.failed = "shadow copy: " + err.Error()
+		return
+	}
+	hook := fileutil.VerifSyncHook
+	fileutil.VerifSyncHook = nil
+	defer func() { fileutil.VerifSyncHook = hook }()
+	var rc2 *raftexample.RaftNode
+	var err error
+	func() {
+		defer func() {
+			if r := recover(); r != nil {
+				err = fmt.Errorf("recovery panics: %v", r)
+			}
+		}()
+		rc2, _, _, err = raftexample.VerifNewRaftNode(n.id, s.peers, sh, func() ([]byte, error) { return nil, nil })
+	}()
+	if err != nil {
+		// a torn write in progress may legitimately need repair; what matters is what a restart recovers
+		return
+	}
+	defer rc2.VerifCloseWAL()
+	hs, _, _ := rc2.VerifStorage().InitialState()
+	last, _ := rc2.VerifStorage().LastIndex()
+	what := fmt.Sprintf("node %d hands %s(term %d, index %d, to n%d) to the transport", n.id, m.Type, m.Term, m.Index, m.To)
+	if hs.Term < m.Term {
+		s.shadowViol = append(s.shadowViol, fmt.Sprintf("%s while a restart from its files recovers term %d: the response leaves before the term is durable", what, hs.Term))
+		return
+	}
+	if needVote && (hs.Term != m.Term || hs.Vote != m.To) {
+		s.shadowViol = append(s.shadowViol, fmt.Sprintf("%s while a restart from its files recovers term %d vote %d: the vote leaves before it is durable", what, hs.Term, hs.Vote))
+		return
+	}
+	if needIndex > 0 && last < needIndex {
+		s.shadowViol = append(s.shadowViol, fmt.Sprintf("%s while a restart from its files recovers a log ending at index %d: the acknowledgement leaves before the entries are durable (the leader will commit and answer the client on it)", what, last))
+	}
 }
